@@ -200,7 +200,9 @@ static void fingerprint()
     for(int64_t x = 65536; x < 65536 + 400000 && differ < 64; x += 97) probe(x);
     // beyond the common domain the two algorithms differ by construction (abacus: NaN from 2^32 on; std: a value), which keeps
     // the fingerprint meaningful even if both round identically below 2^31
+#ifndef VERIF_FUZZ // the fuzz target is sanitizer-instrumented and aborts on a report: no library call outside sqrt's domain before the first input
     for(int64_t x : { (int64_t)1 << 48, ((int64_t)1 << 49) + 1, (int64_t)1 << 50, (int64_t)3 << 54, ((int64_t)1 << 62) + 12345, ((int64_t)1 << 47) + 1, ((int64_t)1 << 47) - 1 }) probe(x);
+#endif
     if(differ == 0) c.sqrt_algo = -1;
     else if(like_ab == differ) c.sqrt_algo = 1;
     else if(like_std == differ) c.sqrt_algo = 0;
